@@ -519,7 +519,7 @@ theorem clientRead_fl (sid : Sid) (as : List A) (g : G) (ha : AllAnn g) : fl (cl
     have hd := dataCb_fl sid (g := g) (fun s hs => ha _ s hs)
     cases a <;> (try simp) <;> (try rfl)
     · rw [ih _ (ClosedU0.dataCb _ _ ha), hd.1]
-    · exact hd.1
+    · rw [ih _ (ClosedU0.dataCb _ _ ha), hd.1]
 
 theorem onClient_fl (sid : Sid) (i o : Bool) (as : List A) (g : G) (ha : AllAnn g) : fl (onClient sid i o as g).1 = fl g := by
   unfold onClient
